@@ -11,12 +11,13 @@ structure Facts where
   sendTCP : MethodFacts
   broadcast : MethodFacts
   sharedGuarded : Bool
+  tcpSingleDeadline : Bool := true
 
 def ideal : MethodFacts :=
   { lockWhenFixedPort := true, firstDeadlineAfterLock := true, socketDeadlineAfterLock := true, unlockDeferred := true,
     closeDeferredAfterOpen := true, writes := 1, noReplyCode := 0x96, readsInLoop := false, reads := 1, sleepsForTimeout := false }
 
-def idealFacts : Facts := ⟨{ ideal with readsInLoop := true }, ideal, ideal, { ideal with readsInLoop := true, sleepsForTimeout := true }, true⟩
+def idealFacts : Facts := ⟨{ ideal with readsInLoop := true }, ideal, ideal, { ideal with readsInLoop := true, sleepsForTimeout := true }, true, true⟩
 
 def kv (t : String) : String := ((t.splitOn "=").getD 1 "")
 
@@ -73,6 +74,12 @@ def eval (F : Facts) : List String → Option String
     let n ← (kv calls).toNat?
     let disc := if kv bind = "0" then " discovered=6" else ""
     some (if F.sharedGuarded then s!"own={n} crossed=0 err=0 races=0{disc}" else "unspecified")
+  | ["slow-connect", _, tT, cT] => do
+    -- a TCP controller whose handshake completes `connect` ms into the call and which then never answers
+    let T ← (kv tT).toNat?
+    let c ← (kv cT).toNat?
+    let t := tcpStallReturn F.tcpSingleDeadline T c
+    some s!"err {if t ≤ T then "=T" else ">T"}"
   | ["route-twice", _, _] => some "all-from-bind-address-and-port"
   | ["route-occupied", _, _] => some "occupied nothing-from-another-address-or-port"
   | ["route", _, bind, want] =>
@@ -106,6 +113,9 @@ def judgeDrv (e : String) (impl : List String) : String :=
 def spec (c impl : List String) : Option String :=
   match c with
   | "drv" :: _ => (eval idealFacts c).map fun e => if e = "unspecified" then "unspecified" else judgeDrv e impl
+  | "slow-connect" :: _ => (eval idealFacts c).map fun e =>
+      if impl = e.splitOn " " then "ok"
+      else s!"bad C09 a call to a controller that connects late and never answers fails one timeout after it was made; expected: {e}"
   | ["lock", "tcp-same-endpoint-twice"] => some (Driver.expect "first:ok second:ok" impl)   -- the controller would answer
   | _ => (eval idealFacts c).map fun e => if e = "unspecified" then "unspecified" else Driver.expect e impl
 
